@@ -269,6 +269,46 @@ def h_project_grid(ctx):
             ctx.claim("Dataset input and non-2-D input rejected", True)
 
 
+def h_project_grid_antialias(ctx):
+    "with antialiasing (blocked mean, then linear interpolation) values stay within the range of the input"
+    cfg = ctx.cfg
+    stubs.StubDelaunay.mode = "oracle"
+    stubs.StubDelaunay.oracle_free = cfg.get("oracle_free", 0)
+    del stubs.DELAUNAY_LOG[:]
+    del stubs.ORACLE_LOG[:]
+    sh = tuple(cfg["shape"])
+    x0, y0 = ctx.real("x0"), ctx.real("y0")
+    dx, dy = ctx.real("dx"), ctx.real("dy")
+    ctx.assume(dx > 0)
+    ctx.assume(dy > 0)
+    east = np.array([x0 + j * dx for j in range(sh[1])], dtype=object if ctx.sym else float)
+    north = np.array([y0 + i * dy for i in range(sh[0])], dtype=object if ctx.sym else float)
+    vals = ctx.reals("v", sh)
+    grid = xr.DataArray(vals, coords={"northing": north, "easting": east}, dims=("northing", "easting"), name="field")
+    a, c = Fraction(cfg["proj"][0]), Fraction(cfg["proj"][1])
+    b, d = ctx.real("pb"), ctx.real("pd")
+    if not ctx.sym:
+        a, c = float(a), float(c)
+
+    def projection(e, n):
+        return e * a + b, n * c + d
+
+    out = vd.project_grid(grid, projection, method="linear", antialias=True)
+    ctx.claim("result keeps name, dims and shape with antialiasing", And(out.name == "field", tuple(out.dims) == ("northing", "easting"), out.shape == sh))
+    flat = list(vals.ravel())
+    lo, hi = E.smin(flat), E.smax(flat)
+    for v in out.values.ravel():
+        isnan = (not E.is_sym(v)) and isinstance(v, (float, np.floating)) and v != v
+        if not isnan:
+            ctx.claim("with antialiasing every value stays within the range of the input", And(ge(v, lo), le(v, hi)) if ctx.sym else CBool(float(lo) - 1e-9 * max(1.0, abs(float(lo))) <= float(v) <= float(hi) + 1e-9 * max(1.0, abs(float(hi)))))
+
+
+def _aa_globals(cfg):
+    g = dict(_globals(cfg))
+    g[("verde.blockreduce", "block_split")] = stubs.BlockSplitContract()
+    return g
+
+
 def _cfg_pg(tier, seed):
     q = [{"shape": (2, 2), "proj": ("2", "3")}, {"shape": (2, 3), "proj": ("1/2", "5"), "oracle_free": 2}]
     if tier == "quick":
@@ -286,6 +326,17 @@ HARNESSES = [
         extra_globals=_globals,
         engine={"oneshot": True, "keyed_sqrt": True, "sqrt_pos_axiom": True, "div_elim": True, "timeout_ms": 60000},
         outside="the antialias range claim and the three real interpolation methods (scipy / kd-tree numerics), non-linear projections, OUT-FP, OUT-LIB (qhull)",
+        timeout_s=1200,
+    ),
+    Harness(
+        "project_grid_antialias",
+        h_project_grid_antialias,
+        lambda tier, seed: [{"shape": (3, 3), "proj": ("2", "3")}] + ([{"shape": (3, 4), "proj": ("1/2", "5")}] if tier == "thorough" else []),
+        bounds="3x3 (quick) / 3x4 (thorough) symbolic grid, affine projection, method='linear', antialias=True (real BlockReduce with block_split by the C08 contract), hull oracle fixed to 'inside'",
+        stubs=["LinearNDInterpolator -> uninterpreted with f(p_i) = v_i and min(values) <= f <= max(values)", "block_split -> C08 contract", "Delaunay -> oracle"],
+        extra_globals=_aa_globals,
+        engine={"oneshot": True, "keyed_sqrt": True, "sqrt_pos_axiom": True, "div_elim": True, "timeout_ms": 60000},
+        outside="cubic / nearest with antialiasing; OUT-LIB",
         timeout_s=1200,
     ),
     Harness(
